@@ -745,6 +745,15 @@ def ow_object(exporter, which, seed):
     from menpo.image import Image
     from menpo.shape import PointCloud
 
+    if exporter == "ljson" and which in ("M", "D"):  # multi-group objects: an image's LandmarkManager, a plain dict
+        o1, r1 = make_shape(("LabelledPointUndirectedGraph", "some", "overlap"), _payload("generic", 2, seed, "owM1"))
+        o2, r2 = make_shape(("PointCloud", "-", "-"), _apply_nan(_payload("special", 2, seed, "owM2", 3), "first"))
+        if which == "M":
+            holder = Image(np.zeros((1, 4, 4)))
+            holder.landmarks["g.one"] = o1
+            holder.landmarks["ünï"] = o2
+            return holder.landmarks, {"g.one": r1, "ünï": r2}
+        return {"g.one": o1, "ünï": o2}, {"g.one": r1, "ünï": r2}
     if exporter == "ljson":
         if which == "A":
             obj, ref = make_shape(("LabelledPointUndirectedGraph", "some", "nonalpha"), _apply_nan(_payload("generic", 2, seed, "owA"), "coord"))
@@ -1059,7 +1068,52 @@ class C16(Check):
                 out.append(("rt", ext, PLAIN_SP[j % len(PLAIN_SP)], nks[j % n_nk], fifth[j % len(fifth)]))
         return out
 
+    # refusal kinds the io code distinguishes and raises BEFORE it opens the target (see assumptions() for the
+    # refusals that come after the open and are therefore left out)
+    REF_KINDS = ["exists", "unknown-ext", "ext-mismatch", "handle-no-ext", "multigroup-pts", "video-buffer", "import-missing", "import-unknown-ext", "import-missing-group"]
+
     def ops(self, st, level):
+        """refused-call letters first (self loops: the valid letters that follow run on the same live objects)."""
+        valid = self._valid_ops(st, level)
+        if st["kind"] == "proc" or (not valid and st["kind"] != "ow"):
+            return valid
+        return self._ref_ops(st, level) + valid
+
+    def _ref_ops(self, st, level):
+        kind = st["kind"]
+        h = zlib.crc32(repr(st["root"]).encode("utf8")) + 3 * level
+        if kind == "ow":
+            out = []
+            for k, (name, exporter) in enumerate(OW_FAMILIES[st["root"][1]]):
+                if exporter is None:
+                    continue
+                sp_ = PLAIN_SP[(h + k) % len(PLAIN_SP)]
+                out.append(("ref", "unknown-ext", exporter, "B", name, sp_))
+                if exporter in ("ljson", "pts", "image", "gif"):
+                    out.append(("ref", "ext-mismatch", exporter, "A", name, PLAIN_SP[(h + k + 1) % len(PLAIN_SP)]))
+                if st["fs"][name] == "absent":
+                    out.append(("ref", "import-missing", exporter, "A", name, PLAIN_SP[(h + k + 2) % len(PLAIN_SP)]))
+            return out
+        fam, ext = {"lj": ("landmark", ".ljson"), "pts": ("landmark", ".pts"), "pkl": ("pickle", (".pkl", ".pkl.gz")[(h + level) % 2]), "imf": ("image", (".png", ".tif")[(h + level) % 2]), "imm": ("image", (".bmp", ".png")[(h + level) % 2])}[kind]
+        kinds = ["unknown-ext", "import-missing", "import-unknown-ext"]
+        if fam in ("landmark", "image"):
+            kinds += ["ext-mismatch", "handle-no-ext"]
+        if fam == "image":
+            kinds.append("video-buffer")
+        if kind == "lj":
+            kinds.append("import-missing-group")
+            if not hasattr(st["cur"], "n_points"):
+                kinds.append("multigroup-pts")
+        if self.tier == "quick":  # the refusal on an existing path always, two of the other kinds per state in rotation
+            kinds = [kinds[(h + j) % len(kinds)] for j in range(2)]
+            kinds = kinds[:1] if kinds[0] == kinds[1] else kinds
+        nks = list(NAMEKINDS)[:2]
+        out = [("ref", "exists", fam, ext, PLAIN_SP[h % len(PLAIN_SP)], nks[h % 2])]
+        for j, rk in enumerate(kinds):
+            out.append(("ref", rk, fam, ext, PLAIN_SP[(h + j + 1) % len(PLAIN_SP)], nks[(h + j + 1) % 2]))
+        return out
+
+    def _valid_ops(self, st, level):
         kind = st["kind"]
         if kind != "ow" and level >= 2:
             return []
@@ -1102,8 +1156,8 @@ class C16(Check):
             for name, exporter in files:
                 if exporter is None:
                     continue
-                for sp_ in sps:
-                    for which in ("A", "B"):
+                for si, sp_ in enumerate(sps):
+                    for which in ("A", "B") + (("M", "D") if exporter == "ljson" and not mixed and si < 2 else ()):
                         out.append(("exp", exporter, which, name, sp_, ow))
         # the flag in other legal forms (numpy booleans, 0 / 1): only its truth value may matter
         for name, exporter in files:
@@ -1143,6 +1197,8 @@ class C16(Check):
 
     def _apply(self, st, op, verify=True):
         kind = st["kind"]
+        if op[0] == "ref":
+            return self._apply_ref(st, op, verify)
         if kind == "ow":
             return self._apply_ow(st, op, verify)
         if kind == "proc":
@@ -1376,6 +1432,108 @@ class C16(Check):
         st["cur"] = back
         return fails
 
+    # --- refused calls
+    def _apply_ref(self, st, op, verify):
+        """one refused call, twice.  (a) it raises the expected kind of exception, (b) files and objects are as
+        before, (c) the retry is refused in the same way; (d) is the business of the letters that follow."""
+        import io
+
+        import menpo.io as mio
+        from menpo.io.exceptions import OverwriteError
+
+        d = st["dir"]
+        _, rkind, fam, a4, a5 = op[:5]
+        made = []  # files put there by the harness for this letter only
+        if st["kind"] == "ow":
+            exporter, which, name, sp_ = fam, a4, a5, op[5]
+            obj, _ref = self._ow_obj(st, exporter, which)
+            fam = {"ljson": "landmark", "pts": "landmark", "image": "image", "gif": "image", "pkl": "pickle", "pklgz": "pickle"}[exporter]
+            ext = "." + name.split(".", 1)[1].split(".")[-1] if not name.endswith(".pkl.gz") else ".pkl.gz"
+            where = "refused:%s" % exporter
+        else:
+            ext, sp_, nk = a4, a5, op[5]
+            name = _fname(nk, ext)
+            obj = st["cur"]
+            where = "refused:%s" % {"lj": "ljson", "pts": "pts", "pkl": "pickle"}.get(st["kind"], "image")
+
+        def put(fname, data=FOREIGN):
+            with open(os.path.join(d, fname), "wb") as fh:
+                fh.write(data)
+            made.append(fname)
+
+        exp_fn = {"landmark": mio.export_landmark_file, "image": mio.export_image, "pickle": mio.export_pickle}[fam]
+        imp_fn = {"landmark": mio.import_landmark_file, "image": mio.import_image, "pickle": mio.import_pickle}[fam]
+        want, never = ValueError, OverwriteError
+        buf = None
+        target = name
+        if rkind == "exists":
+            put(name)
+            fn = lambda fp: exp_fn(obj, fp)  # noqa: E731
+            want, never = OverwriteError, ()
+        elif rkind == "unknown-ext":
+            target = name + ".c16x"
+            fn = lambda fp: exp_fn(obj, fp, overwrite=True)  # noqa: E731
+        elif rkind == "ext-mismatch":
+            other = {".ljson": "pts", ".pts": ".LJSON", ".bmp": "png"}.get(ext.lower(), ".bmp")
+            if st["kind"] != "ow":
+                put(name)  # overwrite=True, yet the call is refused for another reason: the file must survive
+            fn = lambda fp: exp_fn(obj, fp, extension=other, overwrite=True)  # noqa: E731
+        elif rkind == "multigroup-pts":
+            target = NAMEKINDS[nk] + ".pts"
+            put(target)
+            fn = lambda fp: exp_fn(obj, fp, overwrite=True)  # noqa: E731
+        elif rkind == "handle-no-ext":
+            buf = io.BytesIO()
+            fn = lambda fp: exp_fn(obj, buf)  # noqa: E731
+        elif rkind == "video-buffer":
+            buf = io.BytesIO()
+            fn = lambda fp: mio.export_video([obj, obj], buf)  # noqa: E731
+        elif rkind == "import-missing":
+            fn = lambda fp: imp_fn(fp)  # noqa: E731
+        elif rkind == "import-unknown-ext":
+            target = name + ".c16x"
+            put(target)
+            fn = lambda fp: imp_fn(fp)  # noqa: E731
+        elif rkind == "import-missing-group":
+            mio.export_landmark_file(obj, os.path.join(d, name))
+            made.append(name)
+            fn = lambda fp: mio.import_landmark_file(fp, group="no such group \u00fc")  # noqa: E731
+            want, never = KeyError, ()
+        else:
+            raise ValueError(op)
+        obs_b = observe(obj, probe=False) if verify else None
+        before = _snapshot(d)
+        _, e1 = _call(d, sp_, target, fn)
+        mid = _snapshot(d)
+        _, e2 = _call(d, sp_, target, fn)
+        after = _snapshot(d)
+        fails = []
+        if verify:
+            what = "%s %s(%s, %s %r)" % (rkind, fam, type(obj).__name__, sp_, target)
+            if e1 is None or not isinstance(e1, want) or (never and isinstance(e1, never)):
+                fails.append(Failure(where, "overwrite-error" if rkind == "exists" else "refused-call-raises", "%s: expected %s%s, got %s" % (what, want.__name__, " (not OverwriteError)" if never else "", "no exception" if e1 is None else "%s: %s" % (type(e1).__name__, e1))))
+            if mid != before or (buf is not None and buf.getvalue() != b""):
+                changed = [n for n in sorted(set(mid) | set(before)) if mid.get(n) != before.get(n)]
+                fails.append(Failure(where, "file-intact" if rkind == "exists" else "refused-call-state", "%s: the refused call changed files %r%s" % (what, changed, "" if buf is None or not buf.getvalue() else " and wrote %d bytes into the buffer" % len(buf.getvalue()))))
+            dd = obs_diff(obs_b, observe(obj, probe=False))
+            if dd:
+                fails.append(Failure(where, "refused-call-state", "%s: the refused call changed its argument: %s" % (what, dd)))
+            if e1 is not None and (type(e2) is not type(e1) or str(e2) != str(e1) or after != mid):
+                fails.append(Failure(where, "refused-call-retry", "%s: first %s: %s / retry %s" % (what, type(e1).__name__, e1, "no exception" if e2 is None else "%s: %s" % (type(e2).__name__, e2))))
+            self.note("ref:%s:%s" % (rkind, "refused" if not fails else "failed"))
+            if rkind == "exists":
+                self.note("ref:exists:%s:%s" % (fam, type(obj).__name__))
+            self.note("refsp:%s" % sp_)
+        for fname in made:
+            pth = os.path.join(d, fname)
+            if os.path.exists(pth):
+                os.remove(pth)
+        if st["kind"] == "ow" and after != before:
+            for n in st["fs"]:
+                if after.get(n) != before.get(n):
+                    st["fs"][n] = "clobbered:" + _sha(after.get(n, b"")) if n in after else "absent"
+        return fails if verify else []
+
     # --- import then export in a fresh interpreter
     def _apply_proc(self, st, op):
         import json
@@ -1485,7 +1643,11 @@ class C16(Check):
                 if after != before:
                     changed = [n for n in sorted(set(after) | set(before)) if after.get(n) != before.get(n)]
                     fails.append(Failure(where, "file-intact", "refused export (%s, overwrite=False) changed %r: %s" % (sp_, changed, "; ".join("%s %s -> %s bytes" % (n, len(before.get(n, b"")), len(after.get(n, b""))) for n in changed))))
+                _, exc2 = _call(st["dir"], sp_, name, _export_call(exporter, obj, ow_val))
+                if isinstance(exc, OverwriteError) and (type(exc2) is not type(exc) or str(exc2) != str(exc) or _snapshot(st["dir"]) != after):
+                    fails.append(Failure(where, "refused-call-retry", "%s exists, overwrite=False, spelling %s: the retry was not refused in the same way (%r)" % (name, sp_, exc2)))
                 self.note("ow:refused:%s" % exporter)
+                self.note("ow:refused-obj:%s" % type(obj).__name__)
                 self.note("owsp:refused:%s" % sp_)
                 self.note("ow:refused-over:%s" % (st["fs"][name] if st["fs"][name] in ("foreign", "zero-byte") else "own"))
             # keep the model in step with the directory so that a replay of this history stays well defined
@@ -1547,6 +1709,8 @@ class C16(Check):
                 "proc:ok", "proc:preinit-import-then-late-plugin-export",
                 "img8:ok", "imgf:ok", "img:gen1", "img:reimport-float", "img:reimport-uint8", "imf-import:float", "imf-import:uint8",
                 "ow:refused-over:foreign", "ow:refused-over:own", "ow:refused-over:zero-byte",
+                "ow:refused-obj:LandmarkManager", "ow:refused-obj:dict", "ref:exists:landmark:LandmarkManager", "ref:exists:landmark:dict", "ref:exists:landmark:PointCloud",
+                "ref:exists:landmark:TriMesh", "ref:exists:pickle:dict", "ref:exists:pickle:PCAModel", "ref:exists:image:Image", "ref:exists:image:MaskedImage", "ref:exists:image:BooleanImage",
                 "lj:n1", "lj:n2", "lj:n3", "lj:manager-one-group-one-point", "lj:dict-one-group-one-point", "pts:n0", "pts:n1", "pts:n2", "pts:n3",
                 "pkl:small:n0", "pkl:small:n1", "pkl:small:n2", "pkl:image-1x1", "img:size:1x1", "img:size:1xN", "img:size:Nx1", "img:1x1-value-0", "img:1x1-value-255"]
         for e in ("ljson", "pts", "image", "pkl", "pklgz", "gif"):
@@ -1557,6 +1721,8 @@ class C16(Check):
         need += ["sp:%s" % s for s in PLAIN_SP]
         need += ["img8:out.%s" % o for o in (LOSSLESS_OUT[:6] if self.tier == "quick" else LOSSLESS_OUT)]
         quick = self.tier == "quick"
+        need += ["ref:%s:refused" % k for k in self.REF_KINDS]
+        need += ["refsp:%s" % s_ for s_ in PLAIN_SP]
         need += ["proc:in.%s" % a for a in PROC_IN_QUICK + ([] if quick else PROC_IN_MORE)]
         need += ["proc:out.%s" % b for b in PROC_OUT_QUICK + ([] if quick else PROC_OUT_MORE)]
         out = ["outcome %s never produced" % n for n in need if not notes.get(n)]
@@ -1600,6 +1766,7 @@ class C16(Check):
             "export_video is explored for the refusal path only (no ffmpeg): enabled only on existing paths with overwrite=False",
             "spellings that need expanduser / expandvars are explored for the refusal clause only (on success the landmark / image exporters open the unexpanded path)",
             "gzip files are compared after decompression where 'equal to a pristine export' is asked (the header holds a time stamp); 'intact' always means raw bytes",
+            "refused-call letters cover the refusals raised before the target is opened (existing path, unknown extension, extension argument that contradicts the path, several groups into .pts, file-like object without extension, video into a buffer, import of a missing file / unknown extension / missing group); refusals raised AFTER the open (image with 2 or 4 channels, float pixels outside [0,1], infinite coordinate in LJSON, unpicklable object) leave an empty or partial file behind and truncate an existing one under overwrite=True - reported, not letters",
             "upper-case file extensions (F.V2.LJSON) are letters for single shapes, pts, pickles and images; for dicts / LandmarkManagers export_landmark_file refuses them with ValueError (its multi-group guard compares the suffix case-sensitively) - a refusal, not a changed round trip",
             "pickled lists of exactly one element come back unwrapped by import_pickle and LazyList.init_from_iterable is not picklable: neither is a letter",
         ]
